@@ -138,8 +138,8 @@ def rule_key_discipline(ctx, rep, rid: str) -> None:
                     key = f"{m.qual}:{base}[...]"
                     if base in ("self._properties", "self._getters", "self._setters", "self._elements", "self._data", "self._buffer._data", "captures", "data", "packed"):
                         rep.ok(rid, key)
-                    elif base.startswith("self._") and base.split(".")[-1] in ("_properties", "_getters", "_setters", "_elements", "_data"):
-                        rep.ok(rid, key)
+                    elif base.split(".")[-1] in ("_properties", "_getters", "_setters", "_elements", "_data"):
+                        rep.ok(rid, key)  # the dictionaries / element lists of some object-model instance
                     else:
                         rep.bad(rid, key, f"{m.qual} indexes {base} with a computed key", f"{m.module.rel}:{n.lineno}")
 
@@ -517,6 +517,45 @@ def rule_call_protocol(ctx, rep, rid: str) -> None:
                 if isinstance(par, ast.If) and n in par.orelse and "JSFunction" in norm(par.test):
                     continue  # handled above
     return
+
+
+def rule_no_stale_link_caches(ctx, rep, rid: str) -> None:
+    """C08-R7: an object must not memoise data derived from OTHER objects' mutable links (e.g. a flattened
+    prototype chain): re-linking an ancestor cannot invalidate the caches of its descendants."""
+    rep.rule(rid, "no object-model class caches data computed from other objects' mutable prototype links (a flattened chain, an inherited-accessor table): such a cache goes stale when an ancestor is re-linked", floor=1)
+    vals = ctx.tree.mod("values")
+    found = 0
+    for ci in vals.classes.values():
+        if not any(c.name == "JSObject" for c in ctx.tree.mro(ci)):
+            continue
+        # attributes written outside __init__ (mutable links)
+        mutable = set()
+        for m in ci.all_methods:
+            if m.name == "__init__":
+                continue
+            for n in m.own_nodes():
+                if isinstance(n, ast.Assign):
+                    for t in n.targets:
+                        if isinstance(t, ast.Attribute) and norm(t.value) == "self":
+                            mutable.add(t.attr)
+        mutable |= {"_prototype"}
+        for m in ci.all_methods:
+            for n in m.own_nodes():
+                # lazy fill: `if <x> is None:` ... `self.A = <computed>` inside
+                if isinstance(n, ast.If) and isinstance(n.test, ast.Compare) and isinstance(n.test.ops[0], ast.Is) and isinstance(n.test.comparators[0], ast.Constant) and n.test.comparators[0].value is None:
+                    stores = [a for s in n.body for a in ast.walk(s) if isinstance(a, ast.Assign) and any(isinstance(t, ast.Attribute) and norm(t.value) == "self" for t in a.targets)]
+                    if not stores:
+                        continue
+                    reads_other = [x for s in n.body for x in ast.walk(s) if isinstance(x, ast.Attribute) and isinstance(x.value, ast.Name) and x.value.id != "self" and x.attr in mutable and isinstance(x.ctx, ast.Load)]
+                    attr = [t.attr for a in stores for t in a.targets if isinstance(t, ast.Attribute)][0]
+                    found += 1
+                    key = f"{m.qual}:cache self.{attr}"
+                    if reads_other:
+                        rep.bad(rid, key, f"{m.qual} fills the cache self.{attr} from {norm(reads_other[0])}, a mutable link of another object: when that object is re-linked (Object.setPrototypeOf on an ancestor, F.prototype re-assignment) this object keeps answering from the stale chain", f"{m.module.rel}:{n.lineno}")
+                    else:
+                        rep.ok(rid, key)
+    if found == 0:
+        rep.ok(rid, "values:no-lazy-caches")
 
 
 # ------------------------------------------------------------------------ C11
